@@ -149,6 +149,14 @@ def applykron_problems(case):
                 calls += 1
                 if not _compare("applykron", "apply_kronecker: " + label, thunk, exp, form, probs):
                     break
+        if not probs and len(objs) >= 2:
+            # half-integer factors applied to integer / float32 arguments
+            objs[:] = [make_operand(k, n, n, i, seed, scale=0.5)[0] for i, (n, k) in enumerate(case["factors"])]
+            D2 = D * 0.5 ** len(objs)
+            for label, thunk, exp in form_calls(_Q(), D2, "d", seed):
+                calls += 1
+                if not _compare("applykron", "apply_kronecker (half-integer factors): " + label, thunk, exp, "d", probs):
+                    break
     probs = [(key + (":" + branch if key.endswith(("value", "shape")) else ""), msg, a, f) for key, msg, a, f in probs]
     return probs, {"calls": calls, "nontrivial": nontrivial_matrix(D) and len(objs) >= 2, "digest": digest(D)}
 
